@@ -197,6 +197,35 @@ Proof.
   rewrite <- app_assoc. apply unsigned_roundtrip. lia.
 Qed.
 
+(** ** Whole-module framing: any number of sections, of any sizes, written one after the other behind the
+    preamble, split back into exactly those (id, payload) pairs with nothing left over. *)
+Lemma write_section_length id payload : (1 <= length (write_section id payload))%nat.
+Proof. unfold write_section. cbn [length]. lia. Qed.
+
+Lemma decode_sections_write : forall secs fuel, (length (write_sections secs) <= fuel)%nat ->
+    decode_sections fuel (write_sections secs) = Some secs.
+Proof.
+  induction secs as [|[id payload] secs IH]; intros fuel Hf.
+  - destruct fuel; reflexivity.
+  - unfold write_sections in *. cbn [flat_map fst snd] in *.
+    rewrite app_length in Hf. pose proof (write_section_length id payload) as Hl.
+    destruct fuel as [|f]; [lia|].
+    remember (write_section id payload ++ flat_map (fun s => write_section (fst s) (snd s)) secs) as bs eqn:Ebs.
+    destruct bs as [|b bs'].
+    { unfold write_section in Ebs. cbn [app] in Ebs. discriminate. }
+    cbn [decode_sections]. rewrite Ebs. rewrite section_roundtrip.
+    rewrite IH by lia. reflexivity.
+Qed.
+
+Theorem module_framing_roundtrip : forall secs,
+    split_module (wasm_preamble ++ write_sections secs) = Some secs.
+Proof.
+  intros secs. unfold split_module.
+  assert (Hs : strip_prefix wasm_preamble (wasm_preamble ++ write_sections secs) = Some (write_sections secs)).
+  { unfold wasm_preamble. cbn [app strip_prefix]. rewrite !Z.eqb_refl. reflexivity. }
+  rewrite Hs. apply decode_sections_write. lia.
+Qed.
+
 (** ** UTF-8 *)
 Lemma utf8_decode1_encode1 : forall c rest, is_scalar_value c = true ->
     utf8_decode1 (utf8_encode1 c ++ rest) = Some (c, rest).
